@@ -175,7 +175,7 @@ def run(ctx):
         "live variant (go17.go): the wrappers and the installed standard library's context package are judged together; the toolchain is part of the result",
         "pre17 variant: pre_go17.go is compiled with its `+build !go1.7` line removed through `go build -overlay` (no toolchain >= 1.7 compiles it otherwise) plus a "
         "read-only export of len(children); verdicts of the pre17_ stages concern code that is dead on every current toolchain",
-        "time: abstract instants are embedded in real time per case (past = one hour ago, reached by a tick = start + k x delta with delta 40 ms / 400 ms / 3 s, "
+        "time: abstract instants are embedded in real time per case (past = one hour ago, reached by a tick = start + k x delta with delta 40 ms / 400 ms / 4 s, "
         "never reached = in one hour); a tick sleeps until its instant and blocks on Done (30 s bound) for what must close; after every step the clock must show that the "
         "next instant is not reached, else the attempt is discarded and repeated with the next delta (never a verdict); exact firing times are not judged",
         "Deadline() of a WithTimeout context is judged against [now_before_call + timeout, now_after_call + timeout]; a tie between contexts asking for the same instant "
